@@ -411,6 +411,24 @@ func (k *caseRun) doRequest(o originSpec, p pathSpec, header, credKind string) {
 	if header != "" {
 		req.Header.Set("Authorization", header)
 	}
+	// headers a client is free to send: where a request comes from is decided by the connection's
+	// peer address alone, never by what the request claims about itself
+	if k.r.Chance(35) {
+		claim := []string{"127.0.0.1", "::1", "127.0.0.9", "127.0.0.1, 10.0.0.7", "localhost", "[::1]:9888"}[k.r.Intn(6)]
+		switch k.r.Intn(4) {
+		case 0:
+			req.Header.Set("X-Forwarded-For", claim)
+		case 1:
+			req.Header.Set("X-Real-IP", claim)
+		case 2:
+			req.Header.Set("Forwarded", "for="+claim)
+		default:
+			req.Header.Set("X-Forwarded-For", claim)
+			req.Header.Set("X-Real-Ip", claim)
+			req.Host = "localhost"
+		}
+		k.count("request-claims-loopback-in-headers")
+	}
 	user, pw, hasCreds := req.BasicAuth() // net/http's parsing: the model takes its result
 	req2, err := k.api.Authenticate(req)
 	code := 40
